@@ -29,18 +29,18 @@ let strip_exact (s : string) : string =
 
 (* reserved-byte positions of a leaf: encode it with every captured reserved chunk set to 00.. and to ff..
    (same lengths as the defaults) and report the body offsets where the two encodings differ *)
-let dontcare_of (box : string) (version : int) (l : leaf) : unit =
+let dontcare_of ?(maxv = 255) (box : string) (version : int) (l : leaf) : unit =
   let d = dflt_rsv l in
-  let fill v = L.map (fun c -> L.map (fun _ -> n_of_int v) c) d in
+  let fill v = L.map (fun c -> L.map (fun _ -> n_of_int (if v = 0 then 0 else maxv)) c) d in
   let h = { h_name = []; h_size = N0; h_len = n_of_int 8 } in
-  match raw_box true (MLeaf (h, l, fill 0)), raw_box true (MLeaf (h, l, fill 255)) with
+  match raw_box true (MLeaf (h, l, fill 0)), raw_box true (MLeaf (h, l, fill 1)) with
   | Base.Ok a, Base.Ok b ->
     let a = Array.of_list (L.map int_of_n a) and b = Array.of_list (L.map int_of_n b) in
     let i = ref 8 in
     while !i < Array.length a do
-      if a.(!i) <> b.(!i) then begin
+      if a.(!i) lxor b.(!i) = 255 then begin
         let j = ref !i in
-        while !j < Array.length a && a.(!j) <> b.(!j) do incr j done;
+        while !j < Array.length a && a.(!j) lxor b.(!j) = 255 do incr j done;
         Printf.printf "dontcare %s %d %d %d\n" box version (!i - 8) (!j - !i);
         i := !j
       end else incr i
@@ -57,7 +57,10 @@ let () =
         dontcare_of "tkhd" v (LTkhd (n v, z, z, z, z, z, z, z, z, z, z));
         dontcare_of "sidx" v (LSidx (n v, z, z, z, z, z, []));
         dontcare_of "mdhd" v (LMdhd (n v, z, z, z, z, z, z));
-        dontcare_of "hdlr" v (LHdlr (n v, z, z, [z; z; z; z], [], false))) [0; 1; 2; 3]
+        dontcare_of "hdlr" v (LHdlr (n v, z, z, [z; z; z; z], [], false));
+        dontcare_of "smhd" v (LSmhd (n v, z, z));
+        dontcare_of "tenc" v (LTenc (n v, z, z, z, z, z, L.init 16 (fun _ -> z), []));
+        dontcare_of ~maxv:67108863 "tfra" v (LTfra (n v, z, z, z, z, z, []))) [0; 1; 2; 3]
   end else
   if Array.length Sys.argv > 1 && Sys.argv.(1) = "names" then begin
     L.iter (fun (n, _) -> Printf.printf "leaf %s\n" (hex_of_bytes n)) leaf_table;
